@@ -12,7 +12,8 @@ From V Require Import Model.Expr Model.SqlExpr
                       Model.ExprTree Model.Lexer Model.Parser Model.ParserConv Gen.GrammarGen
                       Proofs.ParserProofs Proofs.ParserProofs2 Proofs.LexerProofs
                       Proofs.ParserProofsCanon Proofs.ParserProofsFuel Proofs.ParserProofsX Proofs.ParserProofsConv
-                      Model.ParserShow Proofs.ParserProofsShow Proofs.ParserProofsShow2 Proofs.ParserProofsShow3.
+                      Model.ParserShow Proofs.ParserProofsShow Proofs.ParserProofsShow2 Proofs.ParserProofsShow3
+                      Model.ConvPrims Gen.ConvGen Model.ConvVisit Proofs.ConvProofs Proofs.LexerProofsWs.
 Import ListNotations.
 Close Scope Z_scope.   (* opened by Model/Expr.v *)
 Open Scope string_scope.
@@ -491,3 +492,157 @@ Example ill_typed_rejected_hyps :
   exists t e, parse_string tv_id "detector = 'a' OR instrument" = POk (Some t) /\ of_tree res_ex bound_ex (fun _ => 0%Z) t = TConv e /\
     quirk_free e = true /\ typeof e <> Some DBool /\ has_span_eq e = false.
 Proof. eexists; eexists. repeat split; try (vm_compute; reflexivity). vm_compute. discriminate. Qed.
+
+
+(* ===================================================================== wave 6: tie T for the conversion layer.
+   Gen/ConvGen.v holds the `match` arms of queries/_expression_strings.py `_ConversionVisitor` (visitBinaryOp, visitUnaryOp,
+   visitIsIn, visitBind, visitNumericLiteral, visitTupleNode, ... and _convert_in_clause_to_predicate, _to_timespan_bound,
+   _convert_comparison_operator) REGENERATED from the source on every run; `visit` folds them over the tree the way exprTree.py's
+   Node.visit does.  res = identifier resolution (parameter), res_wf = it never yields a boolean LITERAL. *)
+Theorem gen_conv_agrees : forall res bound tns, (forall n b, res n <> Some (RLit (VBool b))) ->
+  forall t e, of_tree res bound tns t = TConv e -> visit res bound tns t = rep e.
+Proof. exact gen_conv_agrees_p. Qed.
+Print Assumptions gen_conv_agrees.
+
+Theorem gen_predicate_is_conv : forall res bound tns, (forall n b, res n <> Some (RLit (VBool b))) ->
+  forall t e f, of_tree res bound tns t = TConv e -> conv e = Some f -> visit res bound tns t = Ok (XPred f).
+Proof. exact gen_predicate_is_conv_p. Qed.
+Print Assumptions gen_predicate_is_conv.
+
+Theorem gen_accepts_iff_conv : forall res bound tns, (forall n b, res n <> Some (RLit (VBool b))) ->
+  forall t e, of_tree res bound tns t = TConv e ->
+  gen_accepts res bound tns t = Some (match conv e with Some _ => true | None => false end).
+Proof. exact gen_accepts_iff_conv_p. Qed.
+Print Assumptions gen_accepts_iff_conv.
+
+Theorem gen_verdict : forall res bound tns, (forall n b, res n <> Some (RLit (VBool b))) ->
+  forall t e, of_tree res bound tns t = TConv e -> has_span_eq e = false ->
+  tree_verdict res bound tns t = match gen_accepts res bound tns t with Some true => Accept | _ => Reject end.
+Proof. exact gen_verdict_p. Qed.
+Print Assumptions gen_verdict.
+
+(* numeric literal rule as the source states it (int(text), on ValueError float(text)) = the documented one *)
+Theorem gen_numeric_rule : forall s, gen_visitNumericLiteral s = Ok (XCol (ELit (num_value s))).
+Proof. exact gen_numeric_rule_p. Qed.
+Print Assumptions gen_numeric_rule.
+
+(* a..b:s in an IN list: Predicate.in_range(member, a, b + 1, s), i.e. C05's leaf with the inclusive stop b *)
+Theorem gen_range_stop : forall m a b st, ctype m = Some TyInt -> (1 <= stride_of st)%Z -> (a <= b + 1)%Z ->
+  gen_convert_in_clause_to_predicate m (XRange a b st) = Ok (BLeaf (LInRange m a b (stride_of st))).
+Proof. exact gen_range_stop_p. Qed.
+Print Assumptions gen_range_stop.
+
+Theorem gen_null_comparison : forall a,
+  gen_visitBinaryOp BEq (XCol a) XNull = Ok (XPred (BLeaf (LIsNull a))) /\
+  gen_visitBinaryOp BNe (XCol a) XNull = Ok (XPred (BNot (BLeaf (LIsNull a)))) /\
+  gen_visitBinaryOp BEq XNull (XCol a) = Ok (XPred (BLeaf (LIsNull a))) /\
+  gen_visitBinaryOp BNe XNull (XCol a) = Ok (XPred (BNot (BLeaf (LIsNull a)))) /\
+  gen_visitBinaryOp BLt (XCol a) XNull = Invalid /\ gen_visitBinaryOp BEq XNull XNull = Invalid.
+Proof. exact gen_null_comparison_p. Qed.
+Print Assumptions gen_null_comparison.
+
+Theorem gen_refused_shapes : forall o a b st vs f args x,
+  gen_visitBinaryOp o (XRange a b st) x = Invalid /\ gen_visitBinaryOp o x (XRange a b st) = Invalid /\
+  gen_visitBinaryOp o (XSeq vs) x = Invalid /\ gen_visitBinaryOp o x (XSeq vs) = Invalid /\
+  (forall u, gen_visitUnaryOp u (XRange a b st) = Invalid /\ gen_visitUnaryOp u (XSeq vs) = Invalid /\ gen_visitUnaryOp u XNull = Invalid) /\
+  gen_visitFunctionCall f args = Invalid /\
+  (forall ng rs, gen_visitIsIn (XRange a b st) rs ng = Invalid /\ gen_visitIsIn XNull rs ng = Invalid /\ gen_visitIsIn (XSeq vs) rs ng = Invalid) /\
+  (forall ra, gen_visitTupleNode [ra] = Invalid) /\ gen_visitTupleNode [XRange a b st; x] = Invalid.
+Proof. exact gen_refused_shapes_p. Qed.
+Print Assumptions gen_refused_shapes.
+
+(* the definitions the generated code relies on but that are not translated (wrapper classes, _make_literal,
+   _get_boolean_column_reference, convert_expression_string_to_predicate) are the ones the model was written for *)
+Theorem gen_conv_untranslated_expected : gen_untranslated_digest = "3b63822e0d49739c20386e33e1585a35".
+Proof. reflexivity. Qed.
+Print Assumptions gen_conv_untranslated_expected.
+
+(* non-vacuity: the regenerated visitor on a concrete tree (premises of gen_conv_agrees hold for res_ex) *)
+Example gen_visit_example :
+  (forall n b, res_ex n <> Some (RLit (VBool b))) /\
+  exists t e f, parse_string tv_id "Detector IN (1..5:2, :ids, :D) AND NOT (instrument = 'Cam' OR detector = NULL)" = POk (Some t) /\
+    of_tree res_ex bound_ex (fun _ => 0%Z) t = TConv e /\ conv e = Some f /\ visit res_ex bound_ex (fun _ => 0%Z) t = Ok (XPred f) /\
+    f = SqlExpr.BAnd
+          (SqlExpr.BOr (SqlExpr.BOr (SqlExpr.BOr (BConst false) (BLeaf (LInRange (ECol 0%N TyInt) 1 5 2)))
+                                    (BLeaf (LInList (ECol 0%N TyInt) [VInt 1; VInt 2])))
+                       (BLeaf (LCmp CEq (ECol 0%N TyInt) (ELit (VInt 1)))))
+          (BNot (SqlExpr.BOr (BLeaf (LCmp CEq (ECol 1%N TyStr) (ELit (VStr "Cam")))) (BLeaf (LIsNull (ECol 0%N TyInt))))).
+Proof.
+  split.
+  - intros n b. unfold res_ex. repeat match goal with |- context[if ?c then _ else _] => destruct c end; discriminate.
+  - eexists; eexists; eexists. repeat split; vm_compute; reflexivity.
+Qed.
+Example gen_visit_rejects :
+  gen_accepts res_ex bound_ex (fun _ => 0%Z) (Binary (Ident "detector") BEq (Str "a")) = Some false /\
+  gen_accepts res_ex bound_ex (fun _ => 0%Z) (Ident "detector") = Some false /\
+  gen_accepts res_ex bound_ex (fun _ => 0%Z) (Binary (Ident "detector") BEq (Bind "nobody")) = Some false /\
+  gen_accepts res_ex bound_ex (fun _ => 0%Z) (Unary UPlus (Str "a")) = Some false.
+Proof. vm_compute. repeat split; reflexivity. Qed.
+
+
+(* ===================================================================== wave 6: insignificant whitespace, as a theorem over the lexer.
+   chunk c t: the text c is read as exactly the token t whenever blanks (space, tab, newline) or the end of the input follow
+   (and no `..` follows the blanks).  spelled ps ts: ps lists chunks with the blanks after each -- a non-empty run between
+   consecutive chunks -- and ts their tokens.  render ps is the text. *)
+Theorem lex_spelled : forall ps ts w0, spelled ps ts -> ws_run w0 = true -> lex_cs (w0 ++ render ps) = ts.
+Proof. exact lex_spelled_p. Qed.
+Print Assumptions lex_spelled.
+
+(* any two spellings of one chunk list lex alike, whatever the runs of blanks before, between and after the chunks *)
+Theorem ws_insensitive : forall ps1 ps2 ts1 ts2 w1 w2,
+  map fst ps1 = map fst ps2 -> spelled ps1 ts1 -> spelled ps2 ts2 -> ws_run w1 = true -> ws_run w2 = true ->
+  lex (string_of_list_ascii (w1 ++ render ps1)) = lex (string_of_list_ascii (w2 ++ render ps2)) /\
+  lex (string_of_list_ascii (w1 ++ render ps1)) = ts1.
+Proof. exact ws_insensitive_p. Qed.
+Print Assumptions ws_insensitive.
+
+(* what is a chunk: identifiers and keywords in any letter case, qualified identifiers, numeric literals, bind names,
+   quoted strings and time literals (blanks INSIDE the quotes are significant: they are part of the chunk), all signs *)
+Theorem chunk_words : forall i, is_ident i = true -> chunk i (classify (string_of_list_ascii i)) /\ chunk (":"%char :: i) (TBind (string_of_list_ascii i)).
+Proof. intros i H. split; [exact (chunk_ident_p i H) | exact (chunk_bind_p i H)]. Qed.
+Print Assumptions chunk_words.
+
+Theorem chunk_literals : forall txt b,
+  (qual_text txt -> chunk txt (TQId (string_of_list_ascii txt))) /\
+  (num_text txt -> chunk txt (TNum (string_of_list_ascii txt))) /\
+  (quote_free b = true -> chunk ("'" :: b ++ ["'"]) (TStr (string_of_list_ascii b)) /\
+                          chunk ("T" :: "'" :: b ++ ["'"]) (TTime (string_of_list_ascii b)) /\
+                          chunk ("t" :: "'" :: b ++ ["'"]) (TTime (string_of_list_ascii b)))%char.
+Proof.
+  intros txt b. split; [exact (chunk_qualified_p txt)|]. split; [exact (chunk_number_p txt)|].
+  intros H. split; [exact (chunk_string_p b H) | exact (chunk_time_p b H)].
+Qed.
+Print Assumptions chunk_literals.
+
+Theorem chunk_signs : Forall (fun p => chunk (fst p) (snd p)) sign_chunks.
+Proof. exact chunk_signs_p. Qed.
+Print Assumptions chunk_signs.
+
+(* non-vacuity: two spellings of  detector <= :d aNd instrument = 'a  b'  *)
+Example ws_insensitive_example :
+  let chunks := [cs "detector"; cs "<="; cs ":d"; cs "aNd"; cs "instrument"; cs "="; cs "'a  b'"] in
+  let toks := [TId "detector"; TLE; TBind "d"; TAND; TId "instrument"; TEQ; TStr "a  b"] in
+  let sp1 := combine chunks [cs " "; cs " "; cs " "; cs " "; cs " "; cs " "; []] in
+  let sp2 := combine chunks [["009"; "010"]; cs "   "; ["010"]; cs " "; ["009"]; cs "  "; cs "  "]%char in
+  spelled sp1 toks /\ spelled sp2 toks /\
+  lex (string_of_list_ascii ([] ++ render sp1)) = lex (string_of_list_ascii (cs "  " ++ render sp2)).
+Proof.
+  assert (C1 : chunk (cs "detector") (TId "detector")) by exact (chunk_ident_p (cs "detector") eq_refl).
+  assert (C2 : chunk (cs "<=") TLE) by (apply (proj1 (Forall_forall _ _) chunk_signs_p (cs "<=", TLE)); simpl; tauto).
+  assert (C3 : chunk (cs ":d") (TBind "d")) by exact (chunk_bind_p (cs "d") eq_refl).
+  assert (C4 : chunk (cs "aNd") TAND) by exact (chunk_ident_p (cs "aNd") eq_refl).
+  assert (C5 : chunk (cs "instrument") (TId "instrument")) by exact (chunk_ident_p (cs "instrument") eq_refl).
+  assert (C6 : chunk (cs "=") TEQ) by (apply (proj1 (Forall_forall _ _) chunk_signs_p (cs "=", TEQ)); simpl; tauto).
+  assert (C7 : chunk (cs "'a  b'") (TStr "a  b")) by exact (chunk_string_p (cs "a  b") eq_refl).
+  assert (S1 : spelled (combine [cs "detector"; cs "<="; cs ":d"; cs "aNd"; cs "instrument"; cs "="; cs "'a  b'"]
+                                [cs " "; cs " "; cs " "; cs " "; cs " "; cs " "; []])
+                       [TId "detector"; TLE; TBind "d"; TAND; TId "instrument"; TEQ; TStr "a  b"]).
+  { simpl. repeat (split; [assumption|split; [reflexivity|split; [discriminate || (intros; congruence)|]]]). exact I. }
+  assert (S2 : spelled (combine [cs "detector"; cs "<="; cs ":d"; cs "aNd"; cs "instrument"; cs "="; cs "'a  b'"]
+                                [["009"; "010"]; cs "   "; ["010"]; cs " "; ["009"]; cs "  "; cs "  "]%char)
+                       [TId "detector"; TLE; TBind "d"; TAND; TId "instrument"; TEQ; TStr "a  b"]).
+  { simpl. repeat (split; [assumption|split; [reflexivity|split; [discriminate || (intros; congruence)|]]]). exact I. }
+  split; [exact S1|]. split; [exact S2|].
+  pose proof (fun H => ws_insensitive_p _ _ _ _ [] (cs "  ") H S1 S2 eq_refl eq_refl) as K.
+  destruct (K eq_refl) as [E _]. exact E.
+Qed.
